@@ -57,7 +57,7 @@ PLANS["C01"] = dict(session_plan(
     stages=[{"variant": "dbg", "workload": "C01"}])
 
 PLANS["C05"] = dict(session_plan(
-    "seeded random edit sessions + closure of the editor state space in small buffers; distinct = hash of (capacity, byte length, cursor, widths signature, key)",
+    "seeded random edit sessions + closure of the editor state space in small buffers + hostile sessions on array-backed buffers / the default builder compared byte for byte with slice-backed buffers of the same sizes; distinct = hash of (capacity, byte length, cursor, widths signature, key)",
     {"c05.insert.accepted": 100000, "c05.insert.rejected": 20000, "c05.insert.inside": 10000, "c05.backspace.effective": 10000},
     {"c05.insert.accepted": 4000000, "c05.insert.rejected": 800000, "c05.insert.inside": 400000, "c05.backspace.effective": 400000}),
     stages=[{"variant": "dbg", "workload": "C05"}])
@@ -217,6 +217,10 @@ MANIFEST_TEXT["C17"] = {
     "note": "Trusted base: core::char / core::str as the Unicode definition; reference tokenizer/classifier; harness."}
 
 # closures as extra stages of C05 and C10
+# array-backed buffers and the builder defaults against slice-backed ones (reported under C05)
+PLANS["C05"]["stages"] += [{"variant": "dbg", "workload": "C03-arrays"}]
+PLANS["C05"]["min_counts"]["quick"].update({"c03.arrays.compared_with_slices": 10000})
+PLANS["C05"]["min_counts"]["thorough"].update({"c03.arrays.compared_with_slices": 100000})
 PLANS["C05"]["stages"] += [{"variant": "dbg", "workload": "C05-closure", "shards": 15}, {"variant": "dbg", "workload": "C05-closure-cli", "shards": 11}]
 PLANS["C05"]["exhaustive"] = {"quick": False, "thorough": False}
 PLANS["C05"]["exhaustive_note"] = {
